@@ -36,6 +36,10 @@ type caseC17 struct {
 	// Wrap: the program re-registers SHA-256 in the crypto registry with a correct implementation that exposes
 	// only the hash.Hash methods (as an instrumented or third-party implementation would).
 	Wrap bool `json:"wrap,omitempty"`
+	// FreshSum (with Wrap): the registered implementation's Sum returns a NEWLY ALLOCATED slice (b || digest) instead of appending
+	// in place - hash.Hash only promises "appends the current hash to b and returns the resulting slice"; a caller that ignores the
+	// returned slice and reads the buffer it passed sees nothing.
+	FreshSum bool `json:"fresh_sum,omitempty"`
 	// Rejected: before the real call the program makes this many calls with an empty DST and recovers from the
 	// documented panic (a server rejecting bad requests): hashing must still work afterwards.
 	Rejected int `json:"rejected,omitempty"`
@@ -229,6 +233,16 @@ import (
 )
 
 type onlyHash struct{ hash.Hash }
+
+var freshSum = %v
+
+func (o onlyHash) Sum(b []byte) []byte {
+	if !freshSum {
+		return o.Hash.Sum(b)
+	}
+	out := make([]byte, 0, len(b)+sha256.Size+7)
+	return append(append(out, b...), o.Hash.Sum(nil)...)
+}
 
 func init() {
 	// (a constructor with a scheduling point: metering, logging, a pool)
@@ -444,6 +458,7 @@ func runC17(c caseC17, o *gen.Obs) error {
 	o.ClassIf(!otherLinks, "sha256-not-linked-by-others")
 	o.ClassIf(otherLinks, "sha256-linked-by-others")
 	o.ClassIf(c.Wrap, "registry-replaced")
+	o.ClassIf(c.Wrap && c.FreshSum, "registry-replaced:sum-returns-a-new-slice")
 	o.ClassIf(c.Rejected > 0, "after-rejected-calls")
 	o.NonTrivialIf(!otherLinks || c.Wrap || c.Rejected > 0 || c.SingleP || c.Arch386 || c.DeadStderr || c.Where != "" || c.Outage || c.IdleMs > 0 || c.Fork || c.Tracer || c.Godebug != "" || c.OverP || c.Bubble)
 
@@ -471,7 +486,7 @@ func runC17(c caseC17, o *gen.Obs) error {
 		return &gen.Inconclusive{Msg: err.Error()}
 	}
 	if c.Wrap {
-		if err := os.WriteFile(filepath.Join(dir, "wrap.go"), []byte(wrapSrc), 0o644); err != nil {
+		if err := os.WriteFile(filepath.Join(dir, "wrap.go"), []byte(fmt.Sprintf(wrapSrc, c.FreshSum)), 0o644); err != nil {
 			return &gen.Inconclusive{Msg: err.Error()}
 		}
 	}
@@ -634,6 +649,7 @@ var c17 = gen.Register(&gen.Check[caseC17]{
 			}
 		}
 		c.Wrap = gen.Chance(t, "wrap", 1, 4)
+		c.FreshSum = c.Wrap && rapid.Bool().Draw(t, "freshSum")
 		c.SingleP = gen.Chance(t, "singleP", 1, 3)
 		c.Arch386 = gen.Chance(t, "arch386", 1, 4)
 		c.DeadStderr = gen.Chance(t, "deadStderr", 1, 4)
@@ -673,6 +689,8 @@ var c17 = gen.Register(&gen.Check[caseC17]{
 			{Fn: "HashToScalar", Msg: "616263", Dst: dst},
 			{Fn: "HashToScalar", Msg: "", Dst: hex.EncodeToString(bytes.Repeat([]byte{'L'}, 300))},
 			{Fn: "HashToGroup", Msg: "616263", Dst: dst, Wrap: true},
+			{Fn: "HashToGroup", Msg: "616263", Dst: dst, Wrap: true, FreshSum: true}, {Fn: "HashToScalar", Msg: "616263", Dst: hex.EncodeToString(bytes.Repeat([]byte{'s'}, 300)), Wrap: true, FreshSum: true},
+			{Fn: "EncodeToGroup", Msg: "", Dst: dst, Wrap: true, FreshSum: true, SingleP: true},
 			{Fn: "HashToGroup", Msg: "616263", Dst: dst, SingleP: true}, {Fn: "EncodeToGroup", Msg: "616263", Dst: dst, SingleP: true},
 			{Fn: "HashToScalar", Msg: "616263", Dst: dst, SingleP: true},
 			{Fn: "HashToGroup", Msg: "616263", Dst: "01", DeadStderr: true}, {Fn: "HashToScalar", Msg: "616263", Dst: dst, DeadStderr: true},
